@@ -15,7 +15,7 @@ env = dict(os.environ, GOFLAGS="-mod=mod", GOPROXY="off", GOSUMDB="off", GOTOOLC
 wt = os.environ.get("VAL_WT", "/tmp/wt/val")
 
 def sh(cmd, cwd=None, ok_codes=(0,)):
-    p = subprocess.run(cmd, shell=True, cwd=cwd, env=env, capture_output=True, text=True)
+    p = subprocess.run(cmd, shell=True, cwd=cwd, env=env, capture_output=True, text=True, errors="replace")
     return p.returncode, (p.stdout + p.stderr)
 
 patch = os.path.join(seed_dir, f"patch{k}.rebased.diff")
